@@ -106,7 +106,8 @@ func runOne(seed int64, mode string) (msg string) {
 	case "prefix":
 		td.SkipFiles = []string{"vendor/", "dir/sub"}
 	case "regex":
-		td.NameFilter = regexp.MustCompile(`\.(go|h)$`)
+		// also patterns that match the empty name of the absent side of an insertion/deletion (defect D17)
+		td.NameFilter = regexp.MustCompile([]string{`\.(go|h)$`, `\.(go|h)$`, `^(a\.go)?$`, `^$`, `^(dir/.*)?$`}[rng.Intn(5)])
 	case "lang", "lang-sub0":
 		td.Languages = map[string]bool{"c": true, "go": true}
 	}
